@@ -18,7 +18,7 @@ ADDENDA = {
     "C06": " Also: step-level work conservation (a released slot is handed to the head waiter in the same window), waits only when full in every reachable state.",
     "C07": " Also: free iff no unfinished holder, a freed id is accepted again, delivering one unit leaves other units' reservations and contexts alone. The base context (ServerOptions.NewContext) is not in the model: that cause is covered by racing scenarios and monitors only.",
     "C08": " Also: status flags as WaitStatus computes them, notifications handled after a stop, no callback watcher left, Start enabled after WaitStatus, release steps strictly decrease a measure (eventual quiescence/termination). Restart: a restarted server is bisimilar to a fresh one for servers without push (c08_restart_simulation_nopush); remaining _partial: c08_restart_simulation_partial (histories with callback records).",
-    "C09": " Also: gate and late replies stated on step from reachable states, exactly one return per push call over whole traces.",
+    "C09": " Also: gate and late replies stated on step from reachable states, exactly one return per push call over whole traces. The check also runs the library's own Client as the callback peer (family cli:c09: handlers that fail with coded/uncoded errors, return unencodable values, panic) against the client model.",
     "C10": " Byte level: what the server and client models pass to Send encodes to one JSON object or non-empty array of objects that parses back (module Bytes10). Also: every run of the server model mapped to lock/Send/Recv/Close events is well-locked and disciplined; client half (module Cli): Close once, every channel operation inside one critical section, none after stop, single reader. The check drives both sides (families c10 and cli:c10).",
     "C11": " Also: Direct under every interleaving of Send/Recv/Close, independence of the reader window, chunked-reader models for the split and header framings (recv over any chunking = recv over the concatenation), RawJSON literals.",
     "C12": " Also: explicit Content-Length rejection, remaining stream is a suffix for every outcome, RawJSON error stickiness and truncation kind, per-call (every n) no-crash theorems, RawJSON records are valid per the independent JSON grammar.",
